@@ -1,9 +1,9 @@
-(* C18 (PLACEHOLDER, to be replaced by the real theorems): the writable global symbols that `nm` finds in the
+(* C18: the writable global symbols that `nm` finds in the
    freshly built C library objects and in the blake3 rlib (generated into gen/GenGlobals.v by tools/props/C18.py
    before this file is compiled) are exactly the CPU-feature detection caches: a new writable static breaks these
-   statements.  Plus one list lemma about per-thread result lists. *)
+   statements. *)
 From Coq Require Import NArith List Bool Lia.
-From V Require Import gen.GenGlobals.
+From V Require Import gen.GenGlobals Base.Res Model.Concurrency Proofs.ConcurrencyP.
 Import ListNotations.
 Open Scope N_scope.
 
@@ -18,10 +18,28 @@ Theorem C18_globals_rs_are_detection_caches : globals_rs =
    [98; 108; 97; 107; 101; 51; 58; 58; 112; 108; 97; 116; 102; 111; 114; 109; 58; 58; 115; 115; 101; 52; 49; 95; 100; 101; 116; 101; 99; 116; 101; 100; 58; 58; 104; 97; 115; 95; 115; 115; 101; 52; 49; 58; 58; 83; 84; 79; 82; 65; 71; 69]].
 Proof. reflexivity. Qed.
 
-Theorem C18_append_lengths_commute : forall (a b : list N),
-  length (a ++ b) = length (b ++ a).
-Proof. intros a b. rewrite !app_length. lia. Qed.
+(* Model (Model/Concurrency.v): a process = a list of instance states + the detection cache; an
+   operation acts on exactly one instance (through a function f of that instance's state only) and
+   may store the constant detected feature set into the cache.  In ANY global sequence of
+   operations -- i.e. any interleaving of the per-instance operation sequences, including the first
+   operations that trigger detection -- instance i observes exactly what it observes when its own
+   operations run alone. *)
+Theorem C18_interleaving_projects : forall (S A O : Type) (f : A -> S -> res (S * O)) (features : N)
+  evs (p p' : proc S) os i s,
+  cache_ok features (cache S p) -> nth_error (insts S p) i = Some s ->
+  run_seq S A O f features p evs = Ok (p', os) ->
+  exists s', run_alone S A O f s (map snd (filter (fun x => Nat.eqb (fst x) i) evs)) = Ok (s', project O i os) /\
+             nth_error (insts S p') i = Some s' /\ cache_ok features (cache S p').
+Proof. exact interleaving_projects. Qed.
+
+(* the detection cache is idempotent: unknown -> the detected value, and then never changes *)
+Theorem C18_detection_idempotent : forall (S : Type) (features : N) (p : proc S),
+  cache_ok features (cache S p) ->
+  cache S (fst (detect S features p)) = Some features /\ snd (detect S features p) = features /\
+  insts S (fst (detect S features p)) = insts S p.
+Proof. exact detect_cache. Qed.
 
 Print Assumptions C18_globals_c_is_detection_cache.
 Print Assumptions C18_globals_rs_are_detection_caches.
-Print Assumptions C18_append_lengths_commute.
+Print Assumptions C18_interleaving_projects.
+Print Assumptions C18_detection_idempotent.
